@@ -226,7 +226,7 @@ Print Assumptions C06_hilbert_every_split_vector_partial.
    different pivot INDEX, same weight, same pivot coordinate *)
 Definition ex_keyed : list (Rcb.keyed spec_float) :=
   map (fun '(i, c) => (f64_to_f32 (f64_of_Z c), Rcb.mkitem i [f64_to_f32 (f64_of_Z c)] 1%Z))
-      [(0%nat, 0%Z); (1%nat, 2%Z); (2%nat, 1%Z); (3%nat, 2%Z)].
+      [(0%N, 0%Z); (1%N, 2%Z); (2%N, 1%Z); (3%N, 2%Z)].
 Example C06_nonvacuous_rcb_fold :
   let t := f64_to_f32 (f64_of_Z 2) in
   let f s := Rcb.par_fold spec_float flt f32_sub Rcb.f32_zero Rcb.f32_inf true t s 0%nat ex_keyed in
